@@ -145,8 +145,8 @@ c07 = []
 shapes = [(1, 1, 0), (2, 2, 0), (3, 3, 1), (3, 3, 0), (4, 3, 1), (4, 4, 1), (4, 4, 0), (5, 5, 2), (5, 5, 1)]
 for i, (W, H, e) in enumerate(shapes):
     quick = (W, H, e) in [(1, 1, 0), (2, 2, 0), (3, 3, 1), (3, 3, 0)]
-    gq = {"W": [W], "H": [H], "e": [e], "g": [1, 2], "F": [5], "R": [-1, 2], "M": [-1]}
-    gt = {"W": [W], "H": [H], "e": [e], "g": [1, 2, 3], "F": [7], "R": [-1, 1, 3], "M": [-1]}
+    gq = {"W": [W], "H": [H], "e": [e], "g": [1, 2], "F": [5], "R": [-1, 2, 3], "M": [-1]}
+    gt = {"W": [W], "H": [H], "e": [e], "g": [1, 2, 3], "F": [7], "R": [-1, 1, 3, 4], "M": [-1]}
     c07.append(det_job(f"bmc_{W}x{H}e{e}", "ZZ_C07_bmc", gq, gt, "" if quick else "thorough"))
 specs["C07"] = {"property": "C07",
     "explanation": "Bounded symbolic verification of motion/motion.go (NewMotionDetector, Detect, pixelsChanged, setFloor, absDiffFrames, warmerDiffFrames, absDiff, warmerDiff, hasMotion, CountPixels, CountPixelsTwoCompare, isAffectedByFFC, Reset) and both internal FrameLoops, differential against a reference model written from the statement (plain frame list; compare frame max(t-gap, first); per-pixel predicate; one-/two-diff counting; interior only). All pixel values (0..65535) of all F frames, temp-thresh, delta-thresh, count-thresh >= 1 and both mode flags are symbolic in one query per frame, so every boundary (= vs >) is inside the quantifier; an optional camera Reset before frame R. Helper lemmas (the just-written diff frame matches the per-pixel predicate) are proved first and then assumed; if one is not proved the instance is re-run without them.",
@@ -204,8 +204,10 @@ sites["stubs"] = SITES_STUB
 sites["native_rewrite"] = ["motion.go:motionDetector.updateBackground=zzStubUpdateBackground", "motion.go:motionDetector.calculateThreshold=zzStubCalcThreshold"]
 c15.append(sites)
 c15.append([j for j in thr_jobs() if j["name"] == "step_a"][0])
-c15.append([j for j in aux_jobs(1) if j["name"] == "step_faults"][0])
-c15.append(mp_jobs()[0])
+_a = dict([j for j in aux_jobs(1) if j["name"] == "step_faults"][0]); _a["grid"] = {"N": [1, 2], "CR": [0], "FAULTS": [1]}
+_m = dict(mp_jobs()[0]); _m["grid"] = {"N": [1, 2], "STEPS": [2]}
+c15.append(_a)
+c15.append(_m)
 specs["C15"] = {"property": "C15",
     "explanation": "Bounded symbolic verification of the dynamic-threshold code of motion/motion.go with SMT FloatingPoint semantics (RNE; float->uint16 conversion RTZ). Lemmas, each from an arbitrary background state (all background pixels, float32 weights >= 0, frame counters, previous-FFC flag, thresholds symbolic): (update) after updateBackground every interior background pixel is <= the new frame's pixel, equals it after an FFC or on (re)seeding (backgroundFrames 0), weights stay non-negative, every border pixel equals the nearest interior pixel, and for 1- and 2-pixel interiors the returned average is exactly sum/n; (clamp) calculateThreshold yields trunc(avg) limited to [temp-thresh-min, temp-thresh-max] for every avg in [0,65536) and every unset/set combination with min <= max; (sites) with updateBackground and calculateThreshold replaced by recording stubs, Detect changes the threshold only via calculateThreshold applied to the average returned by updateBackground in the same call, never on an FFC-affected frame or with a fixed threshold, and passes the previous-FFC flag; (detect) end-to-end cross-check for 1-pixel interiors. That the background/threshold in force are handed to the recorder at the trigger, and remembered for throttle restarts, is asserted in the C01 and C06 harnesses (labels tagged C15).",
     "assumptions": COMMON_ASSUME + ["weights are non-negative non-NaN float32 (they start at 0 and are only reset to 0 or incremented and capped)", "min <= max when both bounds are set"],
@@ -247,12 +249,14 @@ def conn_jobs():
         g = dict(base); g.update(extra)
         j = {"name": name, "pkg": "cmd/thermal-recorder", "harness": "main", "entry": "ZZ_CONN", "grid": g, "stubs": CONN_STUBS,
              "noops": [TR + "/cmd/thermal-recorder.logConfig", "github.com/TheCacophonyProject/event-reporter/eventclient.AddEvent"],
-             "init_pkgs": ["io"], "fixed_now": 1600000000000000000, "allow_pkgs": [L3], "native_rewrite": CONN_REWRITE, "tier": tier, "timeout": 300}
+             "init_pkgs": ["io"], "fixed_now": 1600000000000000000, "allow_pkgs": [L3], "native_rewrite": CONN_REWRITE, "tier": tier, "timeout": 300, "exec_budget_s": 90}
         if extra_t:
             gt = dict(base); gt.update(extra_t); j["grid_thorough"] = gt
         jobs.append(j)
     J("conn", {"K": [3], "THR": [1], "CR": [1], "MODEL": [2]}, {"K": [4], "THR": [1], "CR": [1], "MODEL": [2]})
-    J("conn_wiring", {"K": [1], "THR": [0, 1], "CR": [0, 1], "MODEL": [0, 1, 2, 3]})
+    J("conn_k1", {"K": [1], "THR": [1], "CR": [1], "MODEL": [2]})
+    jobs[-1]["exec_budget_s"] = 240
+    J("conn_wiring", {"K": [0], "THR": [0, 1], "CR": [0, 1], "MODEL": [0, 1, 2, 3]})
     return jobs
 
 HDR_STUBS = {"(*bufio.Reader).ReadString": "zzStubReadString", "(*bytes.Buffer).WriteString": "zzStubWriteString", "(*bytes.Buffer).Bytes": "zzStubBytes", "(*bytes.Buffer).Len": "zzStubLen",
@@ -285,7 +289,7 @@ for pid in ["C05", "C17", "C13"]:
     specs[pid]["jobs"] = specs[pid]["jobs"] + conn_jobs()[1:]
     specs[pid]["outside_claim"] = [x for x in specs[pid]["outside_claim"] if "wiring" not in x]
 
-specs["C09"]["jobs"] = specs["C09"]["jobs"] + [mp_jobs()[0], [j for j in aux_jobs(1) if j["name"] == "step_faults"][0]]
+specs["C09"]["jobs"] = specs["C09"]["jobs"] + [_m, _a]
 
 os.makedirs("/verif/checks", exist_ok=True)
 for pid, sp in specs.items():
